@@ -352,7 +352,7 @@ DICT_DOC = "\r\n".join([
 DICT_TARGETS = [
     ("RRULE:FREQ=YEARLY;BYMONTH=3", "rrule", True), ("RRULE:FREQ=YEARLY;BYMONTH=10", "rrule", True),
     ("RRULE:FREQ=WEEKLY", "rrule", False),
-    ("DTSTART:19810329", "date", True), ("DTSTART;TZID=Sim/Dict:20200310T100000", "date", False),
+    ("DTSTART:19810329", "date", True), ("DTSTART;TZID=Sim/Dict:20200310T100000", "date", True),
     ("RDATE;TZID", "date", False), ("FREEBUSY:", "date", False),
     ("TZOFFSETFROM:+0100", "offset", True), ("TZOFFSETTO:+0100", "offset", True),
     ("TZID:Sim/Dict", "tzid-prop", True), ("DTSTART;TZID=Sim/Dict:20200310T100000", "tzid-param", True),
